@@ -228,8 +228,6 @@ var idxSafeReviewed = map[string]string{
 	"pkg/visitor/formatter/insert/s[k:]":            "as above: 0 <= k <= len(s)",
 	"pkg/visitor/nsresolver/NamespaceResolver.AddAlias/useNameParts[len(useNameParts) - 1]": "Parts of an ast.Name is never empty in a parsed tree: both grammars build every name list from at least one T_STRING (namespace_name: T_STRING | namespace_name T_NS_SEPARATOR T_STRING); hand-built trees with an empty name are outside the property",
 	"pkg/visitor/nsresolver/Namespace.ResolveAlias/nameParts[0]":                            "as above: Name.Parts is non-empty in every parsed tree",
-	"pkg/token/Pool.Get/p.block[p.off - 1]":    "decided exactly by rule pool-typestate (zone domain over off and len(block))",
-	"pkg/position/Pool.Get/p.block[p.off - 1]": "decided exactly by rule pool-typestate",
 	"pkg/token/ID.String/_ID_name[_ID_index[i]:_ID_index[i + 1]]": "the bounds are table entries: rule token-names checks every entry of _ID_index against len(_ID_name) and their order; the two inner index expressions are proved here from the range guard",
 }
 
